@@ -1,6 +1,9 @@
 package parser
 
-import rt "github.com/ozontech/seq-db/verifrt"
+import (
+	"github.com/ozontech/seq-db/seq"
+	rt "github.com/ozontech/seq-db/verifrt"
+)
 
 func vAtom(i int) *ASTNode {
 	return &ASTNode{Value: &Literal{Field: "k", Terms: []Term{{Kind: TermText, Data: string([]byte{byte('a' + i)})}}}}
@@ -88,5 +91,133 @@ func VerifPropagateNot() {
 	rt.Reach("rewritten")
 	rt.Assert(vTruth(root, val) == before, "propagateNot preserves the truth value")
 	rt.Assert(vNoInnerNot(root, true), "no inner NOT remains")
+	rt.Reach("end")
+}
+
+// ---- meaning of a written query ---------------------------------------------------------
+
+// vExpr is an expression as a user writes it: atoms k:a.., in-lists, phrases on a text field,
+// not / and / or.
+type vExpr struct {
+	op   int // 0 atom, 1 not, 2 and, 3 or, 4 k:in(x, y), 5 t:"x y" (text field: a conjunction of words)
+	a, b int // atoms of a leaf
+	l, r *vExpr
+}
+
+func vGenExpr(budget, atoms int) *vExpr {
+	if budget == 0 {
+		switch k := rt.Choose(atoms + 2); {
+		case k < atoms:
+			return &vExpr{op: 0, a: k}
+		case k == atoms:
+			return &vExpr{op: 4, a: 0, b: 1}
+		default:
+			return &vExpr{op: 5, a: 0, b: 1}
+		}
+	}
+	switch rt.Choose(3) {
+	case 0:
+		return &vExpr{op: 1, l: vGenExpr(budget-1, atoms)}
+	case 1:
+		lb := rt.Choose(budget)
+		return &vExpr{op: 2, l: vGenExpr(lb, atoms), r: vGenExpr(budget-1-lb, atoms)}
+	default:
+		lb := rt.Choose(budget)
+		return &vExpr{op: 3, l: vGenExpr(lb, atoms), r: vGenExpr(budget-1-lb, atoms)}
+	}
+}
+
+func vLetter(i int) string { return string([]byte{byte('a' + i)}) }
+
+// vWrite prints the expression with the parentheses the documented precedence requires
+// (or < and < not), upper-case operators for the legacy parser.
+func vWrite(e *vExpr, parent int, legacy bool) string {
+	not, and, or := "not ", " and ", " or "
+	if legacy {
+		not, and, or = "NOT ", " AND ", " OR "
+	}
+	var s string
+	prec := 4
+	switch e.op {
+	case 0:
+		s = "k:" + vLetter(e.a)
+	case 4:
+		s = "k:in(" + vLetter(e.a) + ", " + vLetter(e.b) + ")"
+	case 5:
+		s = `t:"` + vLetter(e.a) + " " + vLetter(e.b) + `"`
+	case 1:
+		prec = 3
+		s = not + vWrite(e.l, 3, legacy)
+	case 2:
+		prec = 2
+		s = vWrite(e.l, 2, legacy) + and + vWrite(e.r, 2, legacy)
+	default:
+		prec = 1
+		s = vWrite(e.l, 1, legacy) + or + vWrite(e.r, 1, legacy)
+	}
+	if prec < parent {
+		return "(" + s + ")"
+	}
+	return s
+}
+
+func vDenotes(e *vExpr, val []bool) bool {
+	switch e.op {
+	case 0:
+		return val[e.a]
+	case 4:
+		return rt.Or(val[e.a], val[e.b])
+	case 5:
+		return rt.And(val[e.a], val[e.b])
+	case 1:
+		return rt.Not(vDenotes(e.l, val))
+	case 2:
+		return rt.And(vDenotes(e.l, val), vDenotes(e.r, val))
+	}
+	return rt.Or(vDenotes(e.l, val), vDenotes(e.r, val))
+}
+
+func vHasSpecialLeaf(e *vExpr) bool {
+	if e == nil {
+		return false
+	}
+	return e.op >= 4 || vHasSpecialLeaf(e.l) || vHasSpecialLeaf(e.r)
+}
+
+// VerifParseMeaning: the query a parser returns for a written expression selects exactly the
+// documents the expression denotes under the documented reading: not binds tighter than and,
+// and tighter than or, parentheses group, in(...) is a disjunction, several words on a text
+// field are a conjunction.
+func VerifParseMeaning() {
+	atoms := rt.Param("ATOMS")
+	e := vGenExpr(rt.Choose(rt.Param("OPS")+1), atoms)
+	mapping := seq.Mapping{
+		"k": seq.NewSingleType(seq.TokenizerTypeKeyword, "", 0),
+		"t": seq.NewSingleType(seq.TokenizerTypeText, "", 0),
+	}
+	val := make([]bool, atoms)
+	for i := range val {
+		val[i] = rt.NondetBool()
+	}
+	want := vDenotes(e, val)
+
+	q := vWrite(e, 0, false)
+	if rt.Choose(2) == 1 {
+		q = "(" + q + ")"
+	}
+	parsed, err := ParseSeqQL(q, mapping)
+	rt.Assert(err == nil, "a well-formed expression parses (SeqQL)")
+	if err == nil {
+		rt.Assert(vTruth(parsed.Root, val) == want, "the parsed query denotes the written expression (SeqQL)")
+	}
+	rt.Reach("seqql")
+	if !vHasSpecialLeaf(e) {
+		root, lerr := ParseQuery(vWrite(e, 0, true), mapping)
+		rt.Assert(lerr == nil, "a well-formed expression parses (legacy)")
+		if lerr == nil {
+			rt.Assert(vTruth(root, val) == want, "the parsed query denotes the written expression (legacy)")
+		}
+		rt.Reach("legacy")
+	}
 	rt.Reach("end")
 }
